@@ -29,7 +29,7 @@ class Contract:
 
     def __init__(self, name, target, setup, requires=None, ensures=None, raises=None, loops=None, callees=None,
                  canaries=(), dropped=(), decorators=None, generator=None, on_exit=None, note="", max_paths=400,
-                 class_models=None, timeout_ms=None, concretize=None, hints=None, stop_after=None, stop_before=None, rounds=None, ghost=None):
+                 class_models=None, timeout_ms=None, concretize=None, hints=None, stop_after=None, stop_before=None, rounds=None, ghost=None, lean=()):
         self.name, self.target, self.setup = name, target, setup
         self.requires = requires or (lambda ctx, st: [])
         self.ensures = ensures or (lambda ctx, st, ret: [])
@@ -47,6 +47,7 @@ class Contract:
         self.concretize = concretize
         self.stop_before = stop_before
         self.ghost = ghost or []      # [(statement text prefix, fn(ip, env, st))] lemma invocations at program points
+        self.lean = list(lean)        # Lean lemma files whose statements the contract uses as arithmetic facts (checked on every run)
         self.rounds = rounds          # instantiation rounds for this contract (default: solve.ROUNDS)
         self.stop_after = stop_after    # text of the last statement of the verified prefix (ensures then receives the locals)
         self.hints = hints      # (ctx, st, skolem constants) -> terms to mention (guides hypothesis instantiation; adds no facts)
